@@ -19,7 +19,7 @@ def ser_jobs(tree, rng, per_class, modes=(False,)):
 
 def run(tier):
     C = Check('C02', tier)
-    C.prove('Properties/C02.v')
+    C.prove('Properties/C02.v', bridges={'Model/Recover.v': []})
     C.cov['tie']['protocol_code_generator + generated code'] = ('correspondence-only: the real generator is run on every specification tree and the generated '
                                                                'serializers are executed; the reference semantics is Model/Elab.v + Model/Ser.v (deep embedding)')
     quick = tier == 'quick'
@@ -36,6 +36,8 @@ def run(tier):
     # the same trees with every boolean attribute's default spelled out: same generated files, same bytes
     variants = [dict(name=e['name'] + '+explicit-defaults', tree=explicit_defaults(e['tree'], rng), jobs=e['jobs'], want_sources=True) for e in entries]
     run_entries(C, runner, entries + variants)
+    recover_stream(C, entries + variants, 'c02')
+    C.cov['tie']['generated classes (structure)'] = ('translation validation: tools/gen2instr.py recovers the instruction lists of every generated serialize / deserialize / __init__ from the SOURCE TEXT (fail-closed) and Model/Recover.v compares them with elab of the same tree (vm_compute): the theorems about the elaborated instruction lists apply to the code as emitted, for all objects and bytes')
     # ---- accepted? importable? (a valid tree must be accepted and importable)
     for e in entries + variants:
         r = e['result']
